@@ -171,7 +171,7 @@ func main() {
 	w.Extra["exhaustive_scope"] = fmt.Sprintf("scope of %d ancestors x %d alphas x %d betas x 4 modes (names {a,b}/{c}, depth <= 2, every entry kind except phantom directories); this run samples it uniformly at random", len(ancestors), len(sides), len(sides))
 	nScope, nRandom, nHist := 1200, 500, 60
 	if cfg.Thorough() {
-		nScope, nRandom, nHist = 60000, 20000, 2000
+		nScope, nRandom, nHist = 26000, 9000, 800
 	}
 	pick := func(anc *core.Entry) *core.Entry {
 		// bias towards sides that share structure with the ancestor
